@@ -16,7 +16,8 @@ THEOREMS = ['Vakt.C10.empty_inv', 'Vakt.C10.setattr_inv', 'Vakt.C10.setattr_reje
 # model's calcType over the kinds of the elements of the three definition fields (lean/Gen/EquivPolicy.lean)
 EXTRA_BUILD = ['+Gen.EquivPolicy']
 GEN_IMPORTS = ['Gen.EquivPolicy']
-GEN_THEOREMS = ['Vakt.GenEquiv.gen_calculate_type', 'Vakt.GenEquiv.translatedPolicy_covers']
+GEN_THEOREMS = ['Vakt.GenEquiv.gen_calculate_type', 'Vakt.GenEquiv.gen_check_field_type', 'Vakt.GenEquiv.gen_check_field_type_model',
+                'Vakt.GenEquiv.gen_setattr', 'Vakt.GenEquiv.translatedPolicy_covers']
 FLOOR = {'quick': 500, 'thorough': 10000}
 FIELDS = ['subjects', 'resources', 'actions']
 
